@@ -16,6 +16,9 @@ def run_pipe(res, tier, prefix, configs, schedules):
                         timeout=1500, case_timeout=180).run()
     # monitor violations: only this property's clauses; crashes / hangs in a valid session concern every pipeline property
     keep = [(k, t, c) for (k, t, c) in sh.viols if k.startswith(prefix + ':')]
+    if prefix == 'C07':
+        # a session that never completes under some interleaving also breaks "the objects delivered are exactly the file's objects"
+        keep += [(prefix + ':session-does-not-complete:' + k[4:], t, c) for (k, t, c) in sh.viols if k.startswith('C06:deadlock') or k.startswith('C06:livelock')]
     other = sorted(set(k for (k, t, c) in sh.viols if not k.startswith(prefix + ':')))
     sh.viols = [(k[len(prefix) + 1:], t, c) for (k, t, c) in keep]
     common.absorb(res, sh)
